@@ -4,6 +4,7 @@ CONSTANTS
   ExplicitByCanonical = FALSE
   KeyByCanonical = TRUE
   LookupCanonical = TRUE
+  PromoteSystemHits = TRUE
   IncluderDirResolved = TRUE
   OptDirsPhysical = FALSE
   MaxIncludes = 3
